@@ -227,4 +227,48 @@ theorem manual_mg_loop_waits_for_sectioning_time (C : Cfg) (s : St) (n : Nat) (d
   rw [manual_check_waits C _ n (by simpa [hg] using ht2pos.1)]
   exact ⟨rfl, rfl, rfl, by simpa [hg] using ht2pos.2⟩
 
+open Relsad.Control in
+private theorem flagStepA_timer_ge (C : Cfg) (hT : 0 ≤ C.T) (n : Nat) (cm : Comm) (s : St) (k : Nat) :
+    (flagStepA C n cm s k).timer.length = s.timer.length ∧ gr s.timer n ≤ gr (flagStepA C n cm s k).timer n := by
+  unfold flagStepA
+  by_cases hf : anyFailed s (C.secs.getD k default).lines = true
+  · simp only [hf, if_true]
+    rw [remFold_timer]
+    have ht : 0 ≤ (if needSens C cm k then C.T else 0) + disconnectTime C cm k := by
+      unfold disconnectTime; split_ifs <;> linarith
+    refine ⟨by simp, ?_⟩
+    by_cases hn : n < s.timer.length
+    · show gr s.timer n ≤ gr (s.timer.set n _) n
+      rw [gr_set_self _ _ _ hn]; linarith
+    · show gr s.timer n ≤ gr (s.timer.set n _) n
+      have : s.timer.set n (gr s.timer n + ((if needSens C cm k then C.T else 0) + disconnectTime C cm k)) = s.timer :=
+        List.set_eq_of_length_le (not_lt.mp hn)
+      rw [this]
+  · simp only [hf]; exact ⟨rfl, le_refl _⟩
+
+open Relsad.Control in
+/-- **A poll never shortens a sectioning time that is running**: whatever makes a controller poll its sensors (its
+breaker open with the time run out, or a repair that has just been completed somewhere in its network while a manual
+sectioning time is still counting down), the poll can only add to the controller's remaining sectioning time -
+sections that are already flagged add nothing, and nothing is taken away.  So load points wait at least for the time
+that was started when the fault was located by hand. -/
+theorem poll_never_shortens_sectioning_time (C : Cfg) (hT : 0 ≤ C.T) (s : St) (n : Nat) (cm : Comm) :
+    gr s.timer n ≤ gr (checkSensors C s n cm).timer n := by
+  rw [checkSensors_eq]
+  have reco : ∀ (ks : List Nat) (x : St), (ks.foldl (recoStep C n) x).timer = x.timer := by
+    intro ks
+    induction ks with
+    | nil => intro x; rfl
+    | cons a as ih => intro x; simp only [List.foldl_cons]; rw [ih, (tm_recoStep C n x a).1]
+  rw [reco]
+  have flag : ∀ (ks : List Nat) (x : St), gr x.timer n ≤ gr (ks.foldl (flagStepA C n cm) x).timer n := by
+    intro ks
+    induction ks with
+    | nil => intro x; exact le_refl _
+    | cons a as ih =>
+      intro x
+      simp only [List.foldl_cons]
+      exact le_trans (flagStepA_timer_ge C hT n cm x a).2 (ih _)
+  exact flag _ s
+
 end Relsad.C16
